@@ -36,6 +36,7 @@ func cursorParamIndex(sig *types.Signature) int {
 
 func runC19(c *eng.Ctx) {
 	P := c.P
+	pagingEnds(c, "PAGING-ends")
 	// (0) a listing asks the store the children were written to
 	storeChoice(c, "SIB-store-choice")
 	// (1) CURSOR
@@ -536,4 +537,116 @@ func cursorAdvances(c *eng.Ctx, rule string, only map[string]bool) int {
 		}
 	}
 	return nLoopCalls
+}
+
+// pagingEnds decides three structural facts about how the filer's paged listing ends:
+// (a) Filer.ListDirectoryEntries asks for one entry more than the limit and its collecting callback never stops the
+//
+//	stream itself, so the look-ahead entry that tells "there is more" can arrive;
+//
+// (b) the gRPC ListEntries loop stops successfully inside the loop only when a page delivered nothing (a short page
+//
+//	is not the end: expired entries and the store's own page size shorten pages);
+//
+// (c) the first page of ListEntries starts at the request's start name (a substituted start would need the inclusive
+//
+//	flag adjusted with it).
+func pagingEnds(c *eng.Ctx, rule string) {
+	if fn := c.NeedFunc("weed/filer", "(*Filer).ListDirectoryEntries"); fn != nil {
+		for i, cl := range fn.AnonFuncs {
+			ok := true
+			for _, r := range eng.Find(cl, eng.IsReturn) {
+				for _, v := range eng.Resolve(r.(*ssa.Return).Results[0]) {
+					if k, isK := eng.ConstBool(v); !isK || !k {
+						ok = false
+					}
+				}
+			}
+			c.Touch(cl)
+			c.Ob(rule, fmt.Sprintf("%s collector-never-stops#%d", eng.FuncName(fn), i), ok, cl.Pos(), "the collecting callback always asks for the next entry (the stream is bounded by limit+1, the extra entry signals that more exist)")
+		}
+		calls := eng.Find(fn, eng.PlainCallTo("filer.Filer).StreamListDirectoryEntries"))
+		okPlus := len(calls) == 1
+		if okPlus {
+			b, isB := eng.Unwrap(eng.Arg(calls[0].(ssa.CallInstruction), 4)).(*ssa.BinOp)
+			k, isK := int64(0), false
+			if isB {
+				k, isK = eng.ConstInt(b.Y)
+			}
+			okPlus = isB && b.Op == token.ADD && eng.IsParam(b.X, "limit") && isK && k == 1
+		}
+		c.Ob(rule, eng.FuncName(fn)+" asks-for-one-more", okPlus, fn.Pos(), "the stream is asked for limit+1 entries")
+	}
+	if fn := c.NeedFunc("weed/server", "(*FilerServer).ListEntries"); fn != nil {
+		calls := eng.Find(fn, eng.PlainCallTo("filer.Filer).StreamListDirectoryEntries"))
+		if len(calls) != 1 {
+			c.Undecided(rule, eng.FuncName(fn)+" paging-loop", fn.Pos(), "listing call not found")
+			return
+		}
+		call := calls[0]
+		// (b)
+		nothing := func(cond ssa.Value) (bool, bool) {
+			u, ok := cond.(*ssa.UnOp)
+			if !ok || u.Op != token.MUL {
+				return false, false
+			}
+			al, isAl := u.X.(*ssa.Alloc)
+			if !isAl || al.Type().String() != "*bool" {
+				return false, false
+			}
+			// a flag the delivery callback raises
+			for _, cl := range fn.AnonFuncs {
+				for _, in := range eng.Find(cl, func(in ssa.Instruction) bool { _, ok := in.(*ssa.Store); return ok }) {
+					st := in.(*ssa.Store)
+					if fv, isFV := st.Addr.(*ssa.FreeVar); isFV && boundTo(fn, cl, fv) == ssa.Value(al) {
+						if k, isK := eng.ConstBool(st.Val); isK && k {
+							return true, false
+						}
+					}
+				}
+			}
+			return false, false
+		}
+		var inLoopOK []ssa.Instruction
+		for _, r := range eng.Find(fn, eng.IsReturn) {
+			if !eng.Dominates(call, r) {
+				continue
+			}
+			// `return nil` with a named result captured by the callback: a store of nil into the result cell in the returning block
+			for _, in := range r.Block().Instrs {
+				if st, ok := in.(*ssa.Store); ok && eng.IsNilConst(st.Val) && eng.IsErrorType(st.Val.Type()) {
+					inLoopOK = append(inLoopOK, r)
+					break
+				}
+			}
+			if op := eng.ReturnErrOperand(r.(*ssa.Return)); op != nil && eng.IsNilConst(op) {
+				inLoopOK = append(inLoopOK, r)
+			}
+		}
+		if len(inLoopOK) == 0 {
+			c.Undecided(rule, eng.FuncName(fn)+" stops-only-on-an-empty-page", fn.Pos(), "in-loop success return not found")
+		} else {
+			c.Guard(rule, "stops-only-on-an-empty-page", fn, eng.After(call), inLoopOK, eng.PassEdges(fn, nothing), "inside the paging loop the listing ends successfully only when the last page delivered no entry")
+		}
+		// (c)
+		okStart := false
+		if phi, isPhi := eng.Arg(call.(ssa.CallInstruction), 2).(*ssa.Phi); isPhi {
+			h := phi.Block()
+			okStart = true
+			n := 0
+			for i, p := range h.Preds {
+				if h.Dominates(p) {
+					continue
+				}
+				n++
+				for _, v := range eng.Resolve(phi.Edges[i]) {
+					if !eng.IsField(eng.Unwrap(v), "ListEntriesRequest.StartFromFileName") {
+						okStart = false
+					}
+				}
+			}
+			okStart = okStart && n > 0
+		}
+		c.Ob(rule, eng.FuncName(fn)+" first-page-starts-at-the-requested-name", okStart, call.Pos(), "the first page starts at the request's start name, together with the request's inclusive flag")
+	}
 }
